@@ -377,6 +377,189 @@ def drop_else_after_return(tree):
     return tree
 
 
+# --------------------------------------------------------------------------------------------- T15..T21 (round v styles)
+def _blocks(fn):
+    """every statement list inside `fn` (nested function bodies excluded)"""
+    out = []
+
+    def rec(stmts):
+        out.append(stmts)
+        for st in stmts:
+            if isinstance(st, (ast.FunctionDef, ast.AsyncFunctionDef, ast.ClassDef)):
+                continue
+            for fld in ("body", "orelse", "finalbody"):
+                sub = getattr(st, fld, None)
+                if isinstance(sub, list) and sub and isinstance(sub[0], ast.stmt):
+                    rec(sub)
+            if isinstance(st, ast.Try):
+                for h in st.handlers:
+                    rec(h.body)
+            if hasattr(ast, "Match") and isinstance(st, getattr(ast, "Match")):
+                for c in st.cases:
+                    rec(c.body)
+
+    rec(fn.body)
+    return out
+
+
+def _fresh(fn, base):
+    names = {x.id for x in ast.walk(fn) if isinstance(x, ast.Name)} | {a.arg for a in ast.walk(fn) if isinstance(a, ast.arg)}
+    i = 0
+    while f"{base}{i}" in names:
+        i += 1
+    return f"{base}{i}"
+
+
+def name_tests(tree):
+    """`if <test>:` -> `flag = <test>; if flag:` (the test is evaluated at the same point, once)"""
+    for fn in _functions(tree):
+        k = [0]
+        for blk in _blocks(fn):
+            i = 0
+            while i < len(blk):
+                st = blk[i]
+                if isinstance(st, ast.If) and isinstance(st.test, (ast.Compare, ast.BoolOp, ast.UnaryOp)) and not any(isinstance(x, (ast.NamedExpr, ast.Yield, ast.Await)) for x in ast.walk(st.test)):
+                    nm = _fresh(fn, f"cond_{k[0]}_")
+                    k[0] += 1
+                    blk.insert(i, ast.Assign(targets=[ast.Name(id=nm, ctx=ast.Store())], value=st.test, lineno=st.lineno))
+                    st.test = ast.Name(id=nm, ctx=ast.Load())
+                    i += 1
+                i += 1
+    return tree
+
+
+def name_tests_apart(tree):
+    """like name-tests, but an unrelated call statement stands between the flag and its `if` (so that the flag is not
+    trivially adjacent to its use)"""
+    name_tests(tree)
+    for fn in _functions(tree):
+        for blk in _blocks(fn):
+            i = 0
+            while i + 1 < len(blk):
+                st, nx = blk[i], blk[i + 1]
+                if isinstance(st, ast.Assign) and isinstance(st.targets[0], ast.Name) and st.targets[0].id.startswith("cond_") and isinstance(nx, ast.If):
+                    blk.insert(i + 1, ast.Expr(value=ast.Call(func=ast.Name(id="id", ctx=ast.Load()), args=[ast.Constant(value=None)], keywords=[])))
+                    i += 1
+                i += 1
+    return tree
+
+
+def split_and(tree):
+    """`if a and b: body` (no else) -> `if a: if b: body`"""
+    class R(ast.NodeTransformer):
+        def visit_If(self, n):
+            self.generic_visit(n)
+            if not n.orelse and isinstance(n.test, ast.BoolOp) and isinstance(n.test.op, ast.And) and len(n.test.values) >= 2:
+                inner = n.body
+                for t in reversed(n.test.values[1:]):
+                    inner = [ast.If(test=t, body=inner, orelse=[])]
+                return ast.If(test=n.test.values[0], body=inner, orelse=[])
+            return n
+
+    for fn in _functions(tree):
+        R().visit(fn)
+    return tree
+
+
+def ifexp_to_if(tree):
+    """`x = a if c else b` -> `if c: x = a` / `else: x = b`"""
+    for fn in _functions(tree):
+        for blk in _blocks(fn):
+            for i, st in enumerate(list(blk)):
+                if isinstance(st, ast.Assign) and len(st.targets) == 1 and isinstance(st.targets[0], ast.Name) and isinstance(st.value, ast.IfExp):
+                    tgt = st.targets[0].id
+                    v_ = st.value
+                    blk[blk.index(st)] = ast.If(
+                        test=v_.test,
+                        body=[ast.Assign(targets=[ast.Name(id=tgt, ctx=ast.Store())], value=v_.body, lineno=st.lineno)],
+                        orelse=[ast.Assign(targets=[ast.Name(id=tgt, ctx=ast.Store())], value=v_.orelse, lineno=st.lineno)],
+                    )
+    return tree
+
+
+def if_to_ifexp(tree):
+    """`if c: x = a` / `else: x = b` -> `x = a if c else b`"""
+    for fn in _functions(tree):
+        for blk in _blocks(fn):
+            for st in list(blk):
+                if isinstance(st, ast.If) and len(st.body) == 1 and len(st.orelse) == 1 and all(isinstance(x, ast.Assign) and len(x.targets) == 1 and isinstance(x.targets[0], ast.Name) for x in (st.body[0], st.orelse[0])) and st.body[0].targets[0].id == st.orelse[0].targets[0].id:
+                    blk[blk.index(st)] = ast.Assign(targets=[ast.Name(id=st.body[0].targets[0].id, ctx=ast.Store())], value=ast.IfExp(test=st.test, body=st.body[0].value, orelse=st.orelse[0].value), lineno=st.lineno)
+    return tree
+
+
+def split_chain(tree):
+    """`a <= x < b` -> `a <= x and x < b` when the middle operands are plain names / constants"""
+    class R(ast.NodeTransformer):
+        def visit_Compare(self, n):
+            self.generic_visit(n)
+            if len(n.ops) >= 2 and all(isinstance(c, (ast.Name, ast.Constant)) for c in n.comparators[:-1]):
+                parts = []
+                left = n.left
+                for op, c in zip(n.ops, n.comparators):
+                    parts.append(ast.Compare(left=copy.deepcopy(left), ops=[op], comparators=[copy.deepcopy(c)]))
+                    left = c
+                return ast.BoolOp(op=ast.And(), values=parts)
+            return n
+
+    for fn in _functions(tree):
+        R().visit(fn)
+    return tree
+
+
+def enumerate_to_counter(tree):
+    """`for i, x in enumerate(seq): body` -> `i = 0; for x in seq: body; i += 1` when the body has no `continue` of its own"""
+    def own_continue(loop):
+        def rec(stmts):
+            for st in stmts:
+                if isinstance(st, ast.Continue):
+                    return True
+                if isinstance(st, (ast.For, ast.While, ast.AsyncFor, ast.FunctionDef, ast.ClassDef)):
+                    continue
+                for fld in ("body", "orelse", "finalbody"):
+                    sub = getattr(st, fld, None)
+                    if isinstance(sub, list) and sub and isinstance(sub[0], ast.stmt) and rec(sub):
+                        return True
+                if isinstance(st, ast.Try) and any(rec(h.body) for h in st.handlers):
+                    return True
+            return False
+        return rec(loop.body)
+
+    for fn in _functions(tree):
+        for blk in _blocks(fn):
+            for st in list(blk):
+                if isinstance(st, ast.For) and isinstance(st.iter, ast.Call) and isinstance(st.iter.func, ast.Name) and st.iter.func.id == "enumerate" and len(st.iter.args) == 1 and not st.iter.keywords and isinstance(st.target, ast.Tuple) and len(st.target.elts) == 2 and isinstance(st.target.elts[0], ast.Name) and not own_continue(st) and not st.orelse:
+                    i_name = st.target.elts[0].id
+                    # the counter must not be assigned in the body
+                    if any(isinstance(x, ast.Name) and x.id == i_name and isinstance(x.ctx, ast.Store) for b_ in st.body for x in ast.walk(b_)):
+                        continue
+                    idx = blk.index(st)
+                    st.target = st.target.elts[1]
+                    st.iter = st.iter.args[0]
+                    st.body.append(ast.AugAssign(target=ast.Name(id=i_name, ctx=ast.Store()), op=ast.Add(), value=ast.Constant(value=1)))
+                    blk.insert(idx, ast.Assign(targets=[ast.Name(id=i_name, ctx=ast.Store())], value=ast.Constant(value=0), lineno=st.lineno))
+    return tree
+
+
+def parallel_assign(tree):
+    """two consecutive simple assignments `a = e1` / `b = e2` (e2 does not read a, both to plain fresh names) -> `a, b = e1, e2`"""
+    for fn in _functions(tree):
+        for blk in _blocks(fn):
+            i = 0
+            while i + 1 < len(blk):
+                s1, s2 = blk[i], blk[i + 1]
+                if all(isinstance(x, ast.Assign) and len(x.targets) == 1 and isinstance(x.targets[0], ast.Name) and not isinstance(x.value, (ast.Tuple, ast.Yield, ast.Await)) for x in (s1, s2)):
+                    a, b = s1.targets[0].id, s2.targets[0].id
+                    reads2 = {x.id for x in ast.walk(s2.value) if isinstance(x, ast.Name)}
+                    reads1 = {x.id for x in ast.walk(s1.value) if isinstance(x, ast.Name)}
+                    if a != b and a not in reads2 and b not in reads1:
+                        blk[i] = ast.Assign(targets=[ast.Tuple(elts=[ast.Name(id=a, ctx=ast.Store()), ast.Name(id=b, ctx=ast.Store())], ctx=ast.Store())], value=ast.Tuple(elts=[s1.value, s2.value], ctx=ast.Load()), lineno=s1.lineno)
+                        del blk[i + 1]
+                        i += 1
+                        continue
+                i += 1
+    return tree
+
+
 TRANSFORMS: Dict[str, Callable] = {
     "identity-unparse": lambda t: t,
     "rename-locals": rename_locals,
@@ -392,6 +575,14 @@ TRANSFORMS: Dict[str, Callable] = {
     "del-to-pop": del_to_pop,
     "not-in": not_in,
     "drop-else-after-return": drop_else_after_return,
+    "name-tests": name_tests,
+    "name-tests-apart": name_tests_apart,
+    "split-and": split_and,
+    "ifexp-to-if": ifexp_to_if,
+    "if-to-ifexp": if_to_ifexp,
+    "split-chain": split_chain,
+    "enumerate-to-counter": enumerate_to_counter,
+    "parallel-assign": parallel_assign,
 }
 
 
